@@ -62,13 +62,23 @@ def run_unit(args):
         except Exception as e:
             from lvc import ir as _ir
             tb_files = [fs.filename for fs in traceback.extract_tb(e.__traceback__)]
-            if isinstance(e, _ir.Unsupported):
-                # the code under contract uses something the translator does not model: undecided, never a verdict
-                S._record("unit-undecided", "undecided", reason=f"unsupported by the translator: {e}")
-            elif any(f.startswith(os.environ.get("LVC_REPO", "/repo").rstrip("/") + "/") for f in tb_files):
-                # the code under contract raised while being extracted on symbolic inputs (e.g. not typeable with symbolic sizes):
-                # undecided for the obligations of this unit, never a verdict
-                S._record("unit-undecided", "undecided", reason=f"the code under contract raised during symbolic extraction: {type(e).__name__}: {str(e)[:300]}")
+            in_repo = any(f.startswith(os.environ.get("LVC_REPO", "/repo").rstrip("/") + "/") for f in tb_files)
+            if isinstance(e, _ir.Unsupported) or in_repo:
+                # the code under contract uses something the translator does not model, or raised while being extracted on symbolic inputs (e.g. not typeable with symbolic
+                # sizes): undecided for the obligations of this unit, never a verdict by itself.  If the unit names a native replay battery (Session.default_replay), that is
+                # run on the real code: a reproduced failing input is a violation (of the obligation "native-witness"), otherwise the unit stays undecided
+                reason = (f"unsupported by the translator: {e}" if isinstance(e, _ir.Unsupported) else f"the code under contract raised during symbolic extraction: {type(e).__name__}: {str(e)[:300]}")
+                witness = None
+                if S.default_replay is not None:
+                    try:
+                        witness = S.default_replay(None)
+                    except Exception as e2:
+                        witness = dict(reproduced=False, note=f"native replay raised {type(e2).__name__}: {str(e2)[:200]}")
+                if witness and witness.get("reproduced"):
+                    S._record("native-witness", "failed", function=None, what="the unit's obligations could not be generated (" + reason[:160] + "); its native replay battery finds a failing input on the real code",
+                              backend="native", detail=reason[:300], replay=(lambda m, w=witness: w), seconds=0.0, model={})
+                else:
+                    S._record("unit-undecided", "undecided", reason=reason + ("" if witness is None else "; native replay battery: no failing input"))
             else:
                 S._record("unit-crash", "error", reason=f"{type(e).__name__}: {e}", trace=traceback.format_exc()[-3000:])
         for r in S.results:
